@@ -15,7 +15,23 @@ Two streams:
          generic formulas whose real instance is proved to be the derivative (Props/C15
          `residual_grad*`).  Direct oracle (model-free): Richardson central differences of the
          code's own residual against its jacobian, tolerance relative to the gradient norm.
+  reuse: "the gradient equals the derivative of the residual at EVERY vector" makes residual and
+         jacobian functions of the VALUE of the vector alone.  Three (residual, jacobian) pairs
+         live side by side -- two closures of one FitFunctions object over different sub-images and
+         one of a second, different FitFunctions object -- and a scripted walk calls them in random
+         interleaving and order (jacobian first / residual first) on: one persistent ndarray that
+         is updated IN PLACE between calls (whole-vector step, single-component poke, poke undone),
+         the same object unmodified, a persistent strided view updated in place, reversed views,
+         read-only arrays, float32 and longdouble vectors, fresh copies.  Direct oracle (model-free): every
+         recorded answer must equal the answer of a FRESHLY built pair (new FitFunctions, copies of
+         all arrays) on a fresh float64 copy of the vector as it was at the time of the call;
+         recorded jacobians additionally against Richardson central differences of the paired
+         residual evaluated on fresh copies; the caller's vector and the arrays handed to
+         get_residual must be bit-identical afterwards.
+  The pack stream also demands: inputs of vect_from_params / vect_to_params unchanged, results not
+  sharing memory with them, the same call repeated later gives the same answer.
 """
+import copy
 import itertools
 import struct
 import warnings
@@ -31,8 +47,12 @@ RULE = ("pack stream: exhaustive family modes in {0,1,2,3}^k, k<=4 (thorough: k<
         "groups, missing group lists.  Non-trivial = at least one shared (global/grouped) column "
         "and n>=2.  grad stream: random sub-images with 1-4 features in 1-3 clusters, random "
         "param_mode over {const,var,global,cluster} for every parameter, random admissible vector; "
-        "non-trivial = at least 2 features or a shared parameter, gradient norm > 0.  Distinct = "
-        "distinct canonical input.")
+        "non-trivial = at least 2 features or a shared parameter, gradient norm > 0.  reuse stream: "
+        "three (residual, jacobian) pairs (two closures of one FitFunctions object, one of another) "
+        "from grad-stream inputs, scripted walk of 9-17 calls over {in-place step, poke, undo, same "
+        "object again, persistent strided view, reversed view, read-only, float32, longdouble, fresh copy}; "
+        "non-trivial = an in-place update changed the answer on the reused object and >= 2 "
+        "features or a shared parameter.  Distinct = distinct canonical input.")
 ASSUMPTIONS = [
     "gradient mirror: float64 in both (Lean `Float` = C double, same libm exp/sqrt up to 1 ulp); "
     "residual and every jacobian component compared with tolerance 1e-9 relative to the residual "
@@ -44,6 +64,11 @@ ASSUMPTIONS = [
     "the set of contributing pixels (masks, NaN cut of the _safe r2 variants, safe_exp underflow "
     "cut) is held fixed in the theorems; the mirror recomputes it with the same float tests",
     "disc and inv_series have no analytic jacobian in the code (has_jacobian False): out of scope",
+    "reuse stream: answers compared with a freshly built pair on a float64 copy of the vector with "
+    "relative tolerance 1e-12 (residual) / 1e-12 * max|jac| (jacobian) -- same arithmetic on equal "
+    "values, the tolerance only guards against alignment-dependent SIMD summation; float32 / longdouble "
+    "vectors stand for their float64 values; the finite-difference audit (same steps and tolerance "
+    "as the grad stream) is skipped for ring vectors within 0.02 of the NaN cut",
     "custom modes >= 4 are exercised for packing only; the gradient statement is quantified over "
     "{const,var,global,cluster} (the code reads the background of a cluster from its first "
     "feature, which is only meaningful when the background is shared per cluster or coarser)",
@@ -153,6 +178,10 @@ def gen_cases(ctx):
     for i in range(ctx.n(600, 10000)):
         rng = ctx.rng("grad", i)
         yield gen_grad(rng, i)
+    # ---- reuse stream: state that survives between calls
+    for i in range(ctx.n(400, 6000)):
+        rng = ctx.rng("reuse", i)
+        yield gen_reuse(rng, i)
 
 
 MODE_NAMES = ["const", "var", "global", "cluster"]
@@ -189,6 +218,22 @@ def gen_grad(rng, i):
     return dict(stream="grad", ndim=ndim, iso=iso, fn=fn, n=n, clusters=clusters,
                 use_groups=use_groups, param_mode=pm, npseed=rng.randrange(2 ** 31),
                 small_size=rng.random() < 0.25, norm=rng.choice([1.0, 1.0, 37.5, 1e4]))
+
+
+VEC_KINDS = ["inplace", "inplace", "inplace", "poke", "poke", "undo", "same", "same", "strided", "strided",
+             "reversed", "readonly", "f32", "longdouble", "fresh"]
+# fixed prologue: every order of (residual, jacobian) around an in-place update of the same object
+PROLOGUE = [["A", "jac", "fresh0"], ["A", "jac", "inplace"], ["A", "res", "same"], ["A", "res", "inplace"],
+            ["A", "jac", "same"], ["A", "jac", "poke"], ["A", "res", "undo"]]
+
+
+def gen_reuse(rng, i):
+    a = gen_grad(rng, i)
+    b = gen_grad(rng, i + 1 + rng.randrange(7))
+    script = [list(op) for op in PROLOGUE]
+    for _ in range(rng.randint(2, 10)):
+        script.append([rng.choice("AAACCB"), rng.choice(["res", "jac"]), rng.choice(VEC_KINDS)])
+    return dict(stream="reuse", a=a, b=b, script=script, wseed=rng.randrange(2 ** 31))
 
 
 # ------------------------------------------------------------------------------------------------
@@ -258,6 +303,82 @@ def make_consistent(P, n, modes, groups):
                 for i in g:
                     Q[i][j] = P[g[0]][j]
     return Q
+
+
+def same_bits(a, b):
+    a, b = np.asarray(a), np.asarray(b)
+    return a.shape == b.shape and a.dtype == b.dtype and a.tobytes() == b.tobytes()
+
+
+def check_pack_purity(res, P, modes, groups, v, sig):
+    """inputs unchanged, outputs own their memory, layout / dtype of the inputs irrelevant, the same
+    call repeated later answers the same (all values are small integers: exact in float32 too)"""
+    from trackpy.refine.least_squares import vect_from_params, vect_to_params
+    n, k = len(P), len(modes)
+    Pa = np.array(P, dtype=np.float64).reshape(n, k)
+    Ma = np.array(modes)
+    ga = copy.deepcopy(groups)
+    va = np.array(v, dtype=np.float64)
+    P0, M0, v0 = Pa.copy(), Ma.copy(), va.copy()
+    res.stat("pack_purity_cases")
+
+    def bad(what, msg):
+        res.violation("property-violation", msg + " (n=%d modes=%s groups=%s)" % (n, modes, groups),
+                      signature=dict(sig, what=what))
+
+    def inputs_ok(fn):
+        if not (same_bits(Pa, P0) and same_bits(Ma, M0) and same_bits(va, v0) and ga == groups):
+            bad("input-modified", "%s modified one of its arguments" % fn)
+            return False
+        return True
+    first = {}
+    for rnd in range(2):
+        for name, op in (("first", None), ("mean", np.mean)):
+            out = vect_from_params(Pa, Ma, ga, operation=op)
+            if not inputs_ok("vect_from_params(op=%s)" % name):
+                return
+            if np.shares_memory(out, Pa):
+                bad("aliasing", "vect_from_params(op=%s) returns memory of `params`" % name)
+                return
+            key = ("pack", name)
+            if key in first and not same_bits(first[key], out):
+                bad("repeat-differs", "vect_from_params(op=%s) repeated on the same arguments: %s then %s"
+                    % (name, first[key].tolist(), out.tolist()))
+                return
+            first.setdefault(key, out.copy())
+            out[...] = -7777.0                     # the caller may do what it wants with the result
+        u = vect_to_params(va, Pa, Ma, ga)
+        if not inputs_ok("vect_to_params"):
+            return
+        if np.shares_memory(u, Pa) or np.shares_memory(u, va):
+            bad("aliasing", "vect_to_params returns memory of its arguments (documented: not inplace)")
+            return
+        if "unpack" in first and not same_bits(first["unpack"], u):
+            bad("repeat-differs", "vect_to_params repeated on the same arguments differs")
+            return
+        first.setdefault("unpack", u.copy())
+        u[...] = -7777.0
+    # layout / dtype of the arguments
+    L = len(va)
+    big = np.zeros(3 * L + 1)
+    sv = big[1::3][:L]
+    sv[:] = va
+    variants = [("strided vect", sv, Pa), ("reversed-view vect", va[::-1].copy()[::-1], Pa),
+                ("float32 vect", va.astype(np.float32), Pa), ("Fortran-ordered params", va, np.asfortranarray(Pa)),
+                ("params as a column slice of a wider array",
+                 va, np.concatenate([Pa, Pa + 1000.0], axis=1)[:, :k])]
+    for label, vv, PP in variants:
+        u = vect_to_params(vv, PP, Ma, ga)
+        if not np.array_equal(np.asarray(u, dtype=np.float64), first["unpack"]):
+            bad("layout-dependent", "vect_to_params with %s differs: %s vs %s"
+                % (label, np.asarray(u).tolist(), first["unpack"].tolist()))
+            return
+        for name, op in (("first", None), ("mean", np.mean)):
+            o = vect_from_params(PP, Ma, ga, operation=op)
+            if not np.array_equal(np.asarray(o, dtype=np.float64), first[("pack", name)]):
+                bad("layout-dependent", "vect_from_params(op=%s) with %s differs" % (name, label))
+                return
+    res.stat("pack_purity_variants", len(variants))
 
 
 def run_pack_case(ctx, inp):
@@ -336,6 +457,13 @@ def run_pack_case(ctx, inp):
         res.violation("property-violation", "pack(unpack(v)) != v for v=%s: got %s" % (v, back),
                       impl=[str(x) for x in back] if back is not None else None, model=v,
                       signature=dict(sig, what="pack-unpack"))
+    # -- purity of both functions (inputs untouched, outputs own memory, layout independent, repeatable)
+    try:
+        check_pack_purity(res, P, modes, groups, v, sig)
+    except Exception as e:
+        res.violation("property-violation", "pack/unpack raised %s: %s on a re-laid-out argument (n=%d "
+                      "modes=%s groups=%s)" % (type(e).__name__, e, n, modes, groups),
+                      signature=dict(sig, what="purity-raises", error=type(e).__name__))
     # -- unpack(pack(p)) == p for consistent p, with every `constant-preserving` operation
     Q = make_consistent(P, n, modes, groups)
     for name, op in [("first", None), ("mean", np.mean), ("min", np.min), ("max", np.max)]:
@@ -580,7 +708,253 @@ def run_grad_case(ctx, inp):
     return res
 
 
+# ------------------------------------------------------------------------------------------------
+# reuse stream: residual / jacobian are functions of the value of the vector, nothing else
+
+class PairSpec:
+    """everything needed to build a (residual, jacobian) pair, kept pristine"""
+
+    def __init__(self, inp, attempt):
+        self.inp = inp
+        ff, groups, params, v, images, meshes, masks = build_grad(inp, attempt)
+        self.groups, self.params, self.v = groups, params, v
+        self.images, self.meshes, self.masks = images, meshes, masks
+        self.modes = [int(m) for m in ff.modes]
+
+    def make_ff(self):
+        from trackpy.refine.least_squares import FitFunctions
+        inp = self.inp
+        with warnings.catch_warnings():
+            warnings.simplefilter("ignore")
+            return FitFunctions(inp["fn"], inp["ndim"], inp["iso"], dict(inp["param_mode"]))
+
+    def arrays(self):
+        return ([a.copy() for a in self.images], [a.copy() for a in self.meshes],
+                [a.copy() for a in self.masks], self.params.copy(), copy.deepcopy(self.groups))
+
+    def pair(self, ff=None):
+        """-> residual, jacobian, the arrays that were handed over (to audit them afterwards)"""
+        ff = ff or self.make_ff()
+        im, me, ma, pa, gr = self.arrays()
+        residual, jacobian = ff.get_residual(im, me, ma, pa, gr, self.inp["norm"])
+        return residual, jacobian, (im, me, ma, pa, gr)
+
+    def handed_unchanged(self, handed):
+        im, me, ma, pa, gr = handed
+        return (all(same_bits(a, b) for a, b in zip(im, self.images)) and
+                all(same_bits(a, b) for a, b in zip(me, self.meshes)) and
+                all(same_bits(a, b) for a, b in zip(ma, self.masks)) and
+                same_bits(pa, self.params) and
+                canon_groups(gr) == canon_groups(self.groups))
+
+
+def canon_groups(g):
+    return None if g is None else [[[int(i) for i in c] for c in gl] for gl in g]
+
+
+def answers_equal(a, b, fn):
+    """recorded answer a vs reference b"""
+    a = np.asarray(a, dtype=np.float64)
+    b = np.asarray(b, dtype=np.float64)
+    if a.shape != b.shape:
+        return False
+    na, nb = np.isnan(a), np.isnan(b)
+    if (na != nb).any():
+        return False
+    if a.size == 0 or na.all():
+        return True
+    with np.errstate(all="ignore"):
+        scale = float(np.nanmax(np.abs(b)))
+        if not np.isfinite(scale):
+            return bool(np.array_equal(a[~na], b[~nb]))
+        return bool(np.nanmax(np.abs(a - b)) <= 1e-12 * scale + 1e-300)
+
+
+def run_reuse_case(ctx, inp):
+    res = Result()
+    res.stat("reuse_cases")
+    rs = np.random.RandomState(inp["wseed"] % (2 ** 31))
+    specs = {"A": PairSpec(inp["a"], 0), "C": PairSpec(inp["a"], 1), "B": PairSpec(inp["b"], 0)}
+    ff_a = specs["A"].make_ff()                      # ONE FitFunctions object, two closures (A, C)
+    ff_b = specs["B"].make_ff()
+    if not (ff_a.has_jacobian and ff_b.has_jacobian):
+        res.violation("harness-error", "has_jacobian False")
+        return res
+    pairs, handed = {}, {}
+    for name, ff in (("A", ff_a), ("C", ff_a), ("B", ff_b)):
+        r_, j_, h_ = specs[name].pair(ff)
+        pairs[name] = dict(res=r_, jac=j_)
+        handed[name] = h_
+    # persistent vector objects of every pair
+    X, S, big, last_poke = {}, {}, {}, {}
+    for name, sp in specs.items():
+        X[name] = np.array(sp.v, dtype=np.float64)
+        L = len(sp.v)
+        big[name] = np.full(2 * L + 3, 12345.0)
+        S[name] = big[name][2:2 + 2 * L:2]
+        S[name][:] = sp.v
+    sigbase = dict(stream="reuse")
+    records = []
+    prev_on_X = {}
+    inplace_changed = 0
+    interleaved = 0
+    last_pair = None
+    for step, (name, fn, kind) in enumerate(inp["script"]):
+        sp = specs[name]
+        L = len(sp.v)
+        if L == 0:
+            res.stat("reuse_empty_vector_ops")
+            continue
+        x = X[name]
+        if kind in ("inplace",):
+            x *= rs.uniform(0.99, 1.01, L)                       # a step of a hand-written optimiser
+            vec = x
+        elif kind == "poke":
+            m = int(rs.randint(L))
+            h = 1e-3 * max(1.0, abs(float(x[m])))
+            x[m] += h                                            # in-place finite difference
+            last_poke[name] = (m, h)
+            vec = x
+        elif kind == "undo":
+            if name in last_poke:
+                m, h = last_poke.pop(name)
+                x[m] -= h
+            else:
+                kind = "same"
+            vec = x
+        elif kind in ("same", "fresh0"):
+            vec = x
+        elif kind == "strided":
+            S[name] *= rs.uniform(0.99, 1.01, L)                 # persistent non-contiguous view
+            vec = S[name]
+        elif kind == "reversed":
+            vec = (x * rs.uniform(0.995, 1.005, L))[::-1].copy()[::-1]
+        elif kind == "readonly":
+            vec = x * rs.uniform(0.995, 1.005, L)
+            vec.flags.writeable = False
+        elif kind == "f32":
+            vec = (x * rs.uniform(0.995, 1.005, L)).astype(np.float32)
+        elif kind == "longdouble":
+            vec = (x * rs.uniform(0.995, 1.005, L)).astype(np.longdouble)
+        else:
+            vec = x.copy()
+        snap = vec.tobytes()
+        value = np.array(vec, dtype=np.float64)                  # the vector the answer is about
+        try:
+            with np.errstate(all="ignore"):
+                ans = pairs[name][fn](vec)
+            ans = np.array(ans, dtype=np.float64)                # own copy
+        except Exception as e:
+            res.violation("property-violation",
+                          "%s of pair %s raised %s: %s on a %s vector (step %d of the walk)"
+                          % (fn, name, type(e).__name__, e, kind, step),
+                          signature=dict(sigbase, what="raises", call=fn, vector=kind, error=type(e).__name__))
+            return res
+        if vec.tobytes() != snap:
+            res.violation("property-violation",
+                          "%s of pair %s modified the caller's vector (%s, step %d)" % (fn, name, kind, step),
+                          signature=dict(sigbase, what="caller-vector-modified", call=fn, vector=kind))
+            return res
+        res.stat("reuse_ops")
+        res.stat("reuse_op_" + kind)
+        res.stat("reuse_call_" + fn)
+        if last_pair is not None and last_pair != name:
+            interleaved += 1
+        last_pair = name
+        if vec is x:
+            key = (name, fn)
+            if kind in ("inplace", "poke") and key in prev_on_X and not answers_equal(ans, prev_on_X[key], fn):
+                inplace_changed += 1
+            prev_on_X[key] = ans
+        records.append(dict(step=step, pair=name, fn=fn, kind=kind, value=value, ans=ans))
+    if not records:
+        return res
+    res.stat("inplace_reuse_cases")
+    res.stat("reuse_pairs_interleaved", interleaved)
+    res.stat("reuse_inplace_answer_changed", inplace_changed)
+
+    # ---- phase 2: audit every recorded answer against a freshly built pair on a fresh copy
+    for rec in records:
+        sp = specs[rec["pair"]]
+        r_, j_, _ = sp.pair()
+        with np.errstate(all="ignore"):
+            ref = np.array((r_ if rec["fn"] == "res" else j_)(rec["value"].copy()), dtype=np.float64)
+        if answers_equal(rec["ans"], ref, rec["fn"]):
+            continue
+        extra = ""
+        if rec["fn"] == "jac":
+            with np.errstate(all="ignore"):
+                fd = fd_gradient(pairs[rec["pair"]]["res"], rec["value"].copy())
+            gn = float(np.max(np.abs(ref))) or 1.0
+            extra = ("; central differences of the paired residual at x: rel. distance %.3g to the answer, "
+                     "%.3g to the fresh pair's jacobian"
+                     % (float(np.max(np.abs(fd - rec["ans"]))) / gn, float(np.max(np.abs(fd - ref))) / gn))
+        a1, b1 = np.atleast_1d(rec["ans"]), np.atleast_1d(ref)
+        m = int(np.nanargmax(np.abs(a1 - b1))) if a1.shape == b1.shape else 0
+        res.violation("property-violation",
+                      "%s(x) of pair %s at step %d of the walk (vector kind %r: %s) answered %.12g%s but a "
+                      "freshly built pair on a copy of the same x gives %.12g: the answer depends on earlier "
+                      "calls, not on x%s"
+                      % ("jacobian" if rec["fn"] == "jac" else "residual", rec["pair"], rec["step"], rec["kind"],
+                         "same ndarray object as before, updated in place" if rec["kind"] in
+                         ("inplace", "poke", "undo", "strided") else
+                         ("same ndarray object, unmodified" if rec["kind"] == "same" else "new array"),
+                         a1[m] if a1.shape == b1.shape else float("nan"),
+                         " (component %d)" % m if rec["fn"] == "jac" else "", b1[m] if len(b1) else float("nan"),
+                         extra),
+                      impl=dict(answer=rec["ans"].tolist(), x=rec["value"].tolist()),
+                      model=dict(fresh_pair=ref.tolist()),
+                      signature=dict(sigbase, what="history-dependent-answer", call=rec["fn"],
+                                     vector=rec["kind"]))
+        return res
+    # ---- finite-difference audit of recorded jacobians (the statement itself), paired residual on copies
+    jrecs = [r for r in records if r["fn"] == "jac"]
+    pref = [r for r in jrecs if r["kind"] in ("inplace", "poke", "undo", "strided")]
+    todo = (pref[-2:] + [r for r in jrecs if r not in pref][-1:])[:3]
+    for rec in todo:
+        sp = specs[rec["pair"]]
+        inp1 = sp.inp
+        if inp1["fn"] == "ring":
+            ff1 = sp.make_ff()
+            if not ring_margin(ff1, sp.groups, sp.params, rec["value"], sp.meshes, sp.masks,
+                               inp1["clusters"], inp1["ndim"]) > 0.02:
+                res.stat("reuse_fd_skipped_near_cut")
+                continue
+        with np.errstate(all="ignore"):
+            fd = fd_gradient(pairs[rec["pair"]]["res"], rec["value"].copy())
+        gn = float(np.max(np.abs(rec["ans"]))) if rec["ans"].size else 0.0
+        res.stat("reuse_fd_checks")
+        badc = [m for m in range(len(fd)) if not abs(fd[m] - rec["ans"][m]) <= 1e-5 * gn + 1e-9]
+        if badc:
+            m = badc[0]
+            res.violation("property-violation",
+                          "jacobian(x) recorded at step %d of the walk (pair %s, vector kind %r): component %d "
+                          "= %.12g but central differences of the paired residual at x give %.12g (max|jac| %.3g)"
+                          % (rec["step"], rec["pair"], rec["kind"], m, rec["ans"][m], fd[m], gn),
+                          impl=dict(jac=rec["ans"].tolist(), fd=fd.tolist(), x=rec["value"].tolist()),
+                          signature=dict(sigbase, what="gradient", vector=rec["kind"],
+                                         fn=inp1["fn"], ndim=inp1["ndim"], iso=bool(inp1["iso"])))
+            return res
+    # ---- the arrays handed to get_residual are the caller's: untouched
+    for name in specs:
+        if not specs[name].handed_unchanged(handed[name]):
+            res.violation("property-violation",
+                          "evaluating residual / jacobian modified an array that was handed to get_residual "
+                          "(pair %s)" % name, signature=dict(sigbase, what="handed-array-modified"))
+            return res
+    a = inp["a"]
+    shared = any(m >= 2 for m in specs["A"].modes)
+    res.nontrivial = (a["n"] >= 2 or shared) and inplace_changed >= 1
+    if res.nontrivial:
+        res.sample = dict(stream="reuse", fn=[a["fn"], inp["b"]["fn"]], ndim=[a["ndim"], inp["b"]["ndim"]],
+                          calls=len(records), kinds=sorted({r["kind"] for r in records}),
+                          interleaved=interleaved, inplace_answer_changed=inplace_changed)
+    return res
+
+
 def run_case(ctx, inp):
     if inp.get("stream") == "pack":
         return run_pack_case(ctx, inp)
+    if inp.get("stream") == "reuse":
+        return run_reuse_case(ctx, inp)
     return run_grad_case(ctx, inp)
